@@ -1,8 +1,13 @@
 (* EscapeSpec.v — what property C17 expects of the written unit file, as
-   executable definitions (no lemmas): the argument vector systemd must end up
-   with, and the checker that is extracted and applied to the REAL unit text
-   (ocaml/escape_check.ml).  Written from the property statement and the unit
-   template, not from the escaper. *)
+   executable definitions (no lemmas): the shape of the argument vector systemd
+   must end up with, and the checker that is extracted and applied to the REAL
+   unit text (ocaml/escape_check.ml).  Written from the property statement, not
+   from the escaper.
+
+   The checker demands what the property states and nothing more.  Its answer
+   does not depend on any line of the unit other than the ExecStart=
+   assignment(s) of [Service], nor on the program path, on --verbose, on the
+   layout path or on further options in front of the exclude region. *)
 From Coq Require Import List NArith Bool String.
 From TM Require Import Escape Systemd.
 Import ListNotations.
@@ -15,30 +20,53 @@ Definition scalar_ok (c : N) : Prop := 0 < c /\ c < 1114112 /\ ~ (55296 <= c <= 
 Definition scalar_okb (c : N) : bool :=
   (0 <? c) && (c <? 1114112) && negb ((55296 <=? c) && (c <=? 57343)).
 
-(* the arguments in front of the --exclude options (argv[0] included) *)
-Definition fixed_prefix_words : list (list N) :=
-  [str "/usr/bin/totalmapper"; str "remap"; str "--verbose"; str "--layout-file";
-   str "/etc/totalmapper.json"; str "--only-if-keyboard"].
+(* the words the property names (ASCII: bytes = scalars) *)
+Definition w_exclude : list N := str "--exclude".
+Definition w_devfile : list N := str "--dev-file".
+Definition w_layout_file : list N := str "--layout-file".
+Definition w_only_if_keyboard : list N := str "--only-if-keyboard".
 
-(* the non-empty lines a reader of the unit file must find before ExecStart= *)
-Definition expected_header : list (list N) :=
-  [str "[Unit]"; str "Description=Totalmapper"; str "[Service]"; str "Type=simple";
-   str "User=totalmapper"; str "Group=input"].
+(* "--exclude <pattern>" for each pattern: the pattern's bytes, in order *)
+Definition exclude_args (pats : list (list N)) : list (list N) :=
+  flat_map (fun p => [w_exclude; utf8 p]) pats.
 
-(* what systemd must execute for instance [inst] (bytes of the unescaped
-   instance name, e.g. dev/input/event3) and the user's patterns *)
-Definition expected_argv (inst : list N) (pats : list (list N)) : list (list N) :=
-  fixed_prefix_words
-  ++ flat_map (fun p => [utf8 (str "--exclude"); utf8 p]) pats
-  ++ [utf8 (str "--dev-file"); utf8 (str "/") ++ inst].
+(* what the argument vector must END with, for instance [inst] (bytes of the
+   unescaped instance name, e.g. dev/input/event3): the exclude region, then
+   "--dev-file" "/<instance>" *)
+Definition required_suffix (inst : list N) (pats : list (list N)) : list (list N) :=
+  exclude_args pats ++ [w_devfile; 47 :: inst].
 
-(* the unit file text (bytes) read back: the single ExecStart= line after the
-   expected header, then systemd's command-line rules *)
-Definition read_back (inst : list N) (env : list N -> option (list N)) (text : list N)
+(* ---------------------------------------------------------------- the property, as a proposition *)
+
+(* "The surrounding arguments stay intact": in front of the exclude region
+   there is a program, no stray --exclude, --layout-file with a value, and
+   --only-if-keyboard somewhere other than in the place of that value *)
+Definition prefix_intact (pre : list (list N)) : Prop :=
+  pre <> []
+  /\ ~ In w_exclude pre
+  /\ exists a v b, pre = a ++ [w_layout_file; v] ++ b /\ In w_only_if_keyboard (a ++ b).
+
+(* Property C17 of a unit file text, for one instance and one environment of
+   the service: systemd finds exactly one ExecStart= assignment in [Service], and
+   reads it as  <intact prefix> --exclude p1 ... --exclude pn --dev-file /<instance>
+   with p1..pn the user's patterns, byte for byte and in order *)
+Definition c17_holds (inst : list N) (env : list N -> option (list N)) (pats : list (list N))
+  (text : list N) : Prop :=
+  exists line argv pre,
+    service_exec_starts text = Some [line]
+    /\ decode inst env line = Some argv
+    /\ argv = pre ++ exclude_args pats ++ [w_devfile; 47 :: inst]
+    /\ prefix_intact pre.
+
+(* ---------------------------------------------------------------- the same, executable *)
+
+(* the unit file text (bytes) read back: the one ExecStart= assignment of
+   [Service] as systemd finds it, then systemd's command-line rules *)
+Definition read_unit (inst : list N) (env : list N -> option (list N)) (text : list N)
   : option (list (list N)) :=
-  match unit_exec_start expected_header text with
-  | Some line => decode inst env line
-  | None => None
+  match service_exec_starts text with
+  | Some [line] => decode inst env line
+  | _ => None
   end.
 
 Fixpoint argv_eqb (a b : list (list N)) : bool :=
@@ -48,11 +76,108 @@ Fixpoint argv_eqb (a b : list (list N)) : bool :=
   | _, _ => false
   end.
 
+Definition word_in (w : list N) (ws : list (list N)) : bool := existsb (list_eqb w) ws.
+
+(* "--layout-file <word>" occurs in [ws], and "--only-if-keyboard" occurs among
+   the words [before] or in [ws] at a place other than that <word> *)
+Fixpoint layout_and_flag (before : list (list N)) (ws : list (list N)) : bool :=
+  match ws with
+  | w :: r =>
+    match r with
+    | _ :: r' =>
+      (list_eqb w w_layout_file && (word_in w_only_if_keyboard before || word_in w_only_if_keyboard r'))
+      || layout_and_flag (w :: before) r
+    | [] => false
+    end
+  | [] => false
+  end.
+
+Definition prefix_ok (pre : list (list N)) : bool :=
+  match pre with
+  | [] => false
+  | _ :: _ => negb (word_in w_exclude pre) && layout_and_flag [] pre
+  end.
+
+(* the argument vector ends with the required suffix and what is in front of
+   it is an intact prefix *)
+Definition argv_ok (inst : list N) (pats : list (list N)) (argv : list (list N)) : bool :=
+  let suffix := required_suffix inst pats in
+  let n := (List.length argv - List.length suffix)%nat in
+  argv_eqb (skipn n argv) suffix && prefix_ok (firstn n argv).
+
 (* the C17 checker: applied to the model's text it is always true (theorem
-   C17_check_on_model); applied to the real text it decides the property *)
+   C17_check_on_model); a true answer on ANY text means c17_holds (theorem
+   C17_check_sound), a false answer means it does not (C17_check_complete);
+   applied to the real text it decides the property *)
 Definition c17_check (inst : list N) (env : list N -> option (list N)) (pats : list (list N))
   (text : list N) : bool :=
-  match read_back inst env text with
-  | Some argv => argv_eqb argv (expected_argv inst pats)
+  match read_unit inst env text with
+  | Some argv => argv_ok inst pats argv
   | None => false
   end.
+
+(* ---------------------------------------------------------------- correspondence class TEXT *)
+
+(* What the escape engine compares between the REAL unit text and the model
+   (this part, unlike the checker above, uses the escaper model): the text of
+   the exclude region and of what follows it.  The real ExecStart= value must
+   be  P ++ suffix_text pats  for some front part P that systemd, reading P
+   alone, takes as complete words forming an intact prefix.  Theorem
+   C17_any_prefix says that every such line is read as the property demands,
+   for ALL patterns; so the model's own front part (program path, --verbose,
+   layout path) is not part of what is compared. *)
+
+(* the word splitter run over the front part of a line *)
+Fixpoint split_pre (s : sstate) (l : list N) : option sstate :=
+  match l with
+  | [] => Some s
+  | b :: r => match step s b with None => None | Some s' => split_pre s' r end
+  end.
+
+(* the argument words of a front part P that ends between two words: UTF-8
+   clean, split, specifiers and variables expanded, an absolute program path *)
+Definition read_prefix (inst : list N) (env : list N -> option (list N)) (P : list N)
+  : option (list (list N)) :=
+  if utf8_is_valid P then
+    match split_pre (SBetween []) P with
+    | Some (SBetween ws) =>
+      match spec_all inst (rev ws) with
+      | Some ws' =>
+        match ws' with
+        | (b :: _) :: _ => if b =? 47 then Some (flat_map (env_word env) ws') else None
+        | _ => None
+        end
+      | None => None
+      end
+    | _ => None
+    end
+  else None.
+
+(* the text the model writes from the exclude region on *)
+Definition suffix_text (pats : list (list N)) : list N :=
+  (utf8 (build_exclude_text pats) ++ [32]) ++ utf8 (str "--dev-file /%I").
+
+Definition text_class_ok (inst : list N) (env : list N -> option (list N)) (pats : list (list N))
+  (text : list N) : bool :=
+  match service_exec_starts text with
+  | Some [line] =>
+    let S := suffix_text pats in
+    let n := (List.length line - List.length S)%nat in
+    list_eqb (skipn n line) S
+    && match read_prefix inst env (firstn n line) with
+       | Some pre => prefix_ok pre
+       | None => false
+       end
+  | _ => false
+  end.
+
+(* ---------------------------------------------------------------- about the model's line only *)
+
+(* the arguments the MODEL's line has in front of the exclude region (argv[0]
+   included), and the argument vector it must be read as *)
+Definition fixed_prefix_words : list (list N) :=
+  [str "/usr/bin/totalmapper"; str "remap"; str "--verbose"; w_layout_file;
+   str "/etc/totalmapper.json"; w_only_if_keyboard].
+
+Definition expected_argv (inst : list N) (pats : list (list N)) : list (list N) :=
+  fixed_prefix_words ++ required_suffix inst pats.
